@@ -24,7 +24,8 @@ func init() {
 			"R7 association failures are reported (connectDots's error is used); R8 'for ... {' accepts exactly *ast.ForStmt and *ast.RangeStmt, partitions all fields into Body and the others and reproduces all of them; R9 both compilePGoStmtList wrap a non-empty statement pattern in a leading and a trailing implicit elision. " +
 			"NOT decided: the shortest-run / left-to-right choice for all lists as an algorithmic property (only the shape facts R3–R5), mismatched-dots semantics, printer layout." +
 			" R14 a rewrite lands in the slot it matched (parent.<name>[index] of the current match)." +
-			" R2 also: every '...' closes a section; R7 also: connectDots covers every '+' elision before it reports success.",
+			" R2 also: every '...' closes a section; R7 also: connectDots covers every '+' elision before it reports success." +
+			" R15 who interprets an elision: *pgo.Dots is recognised only by the elision tests handed to compileSliceDots, by compileForStmt and by the implicit-elision helpers (inventory: a further place is reported for review).",
 		Trusted:     commonTrusted,
 		Assumptions: commonAssumptions,
 	})
